@@ -40,6 +40,10 @@ func (e *shEncoder) Encode(writer io.Writer, node *CandidateNode) error {
 // put any (shell-unsafe) characters into a single-quoted block, close the block lazily
 func (e *shEncoder) encode(input string) string {
 	const quote = '\''
+	if input == "" {
+		// nothing to quote lazily: an empty string still has to be one shell word
+		return "''"
+	}
 	var inQuoteBlock = false
 	var encoded strings.Builder
 	encoded.Grow(len(input))
